@@ -85,7 +85,7 @@ def gen_value(rng, tick):
     return '?tick(%d, (1u8, "x"))' % tick, 'd:%s' % hx('(1, "x")')
 
 IDENT_NAMES = ['a', 'b', 'c', 'count', 'user_id', 'x1']
-OTHER_NAMES = [('r#type', 'r#type'), ('r#fn', 'r#fn'), ('http.method', 'http.method'), ('a.b.c', 'a.b.c'), ('"lit name"', 'lit name'), ('"quo\\"te"', 'quo"te'), ('"%pct"', '%pct'), ('"?q"', '?q'), ('"sp.ace d"', 'sp.ace d')]
+OTHER_NAMES = [('message', 'message'), ('r#type', 'r#type'), ('r#fn', 'r#fn'), ('http.method', 'http.method'), ('a.b.c', 'a.b.c'), ('"lit name"', 'lit name'), ('"quo\\"te"', 'quo"te'), ('"%pct"', '%pct'), ('"?q"', '?q'), ('"sp.ace d"', 'sp.ace d')]
 
 def gen_invocation(rng, idx):
     kind = rng.choice(['e', 'e', 's'])
@@ -128,7 +128,8 @@ def gen_invocation(rng, idx):
             e, spec = gen_value(rng, tick); tick += 1
             fields.append('%s = %s' % (src, e)); descr.append('%s %s #1' % (hx(name), spec))
     # a trailing format-string message (an event needs at least one field or a message)
-    if rng.random() < 0.5 or (kind == 'e' and not fields):
+    # (an explicitly declared field named `message` is an ordinary field: it keeps its place; no format string next to it)
+    if (rng.random() < 0.5 or (kind == 'e' and not fields)) and 'message' not in used:
         k = rng.choice([0, 1, 2])
         fmt = ''.join(rng.choice('abc XYZ09:=') for _ in range(rng.choice([1, 6]))); text = fmt; args = []
         for _ in range(k):
